@@ -698,6 +698,9 @@ pub enum Strategy {
     Pct { change_points: Vec<u64> },
     /// starve `victim`: between its GET and its PUT let a rival complete a GET+PUT pair
     Starve { victim: String },
+    /// uniform, except that requests of `actor` are passed over 15 times out of 16 while anyone else can run:
+    /// that actor's operations last long (a long-running query, a slow node)
+    Slow { actor: String },
 }
 
 pub struct Scheduler {
@@ -749,6 +752,14 @@ impl Scheduler {
     pub fn choose(&mut self, parked: &[ParkedInfo]) -> usize {
         match self.strategy.clone() {
             Strategy::Uniform => self.rng.usize(parked.len()),
+            Strategy::Slow { actor } => {
+                let others: Vec<usize> = parked.iter().enumerate().filter(|(_, p)| p.actor != actor).map(|(i, _)| i).collect();
+                if others.is_empty() || self.rng.chance(1, 16) {
+                    self.rng.usize(parked.len())
+                } else {
+                    others[self.rng.usize(others.len())]
+                }
+            }
             Strategy::Pct { change_points } => {
                 let mut best = 0usize;
                 let mut best_p = i64::MIN;
